@@ -768,7 +768,11 @@ func (p *Prog) rejectEdges(fn *ssa.Function, ifs []ifInfo) []struct {
 	}
 	for _, ii := range ifs {
 		b := ii.in.Block()
-		if ii.site == nil && spliceAt[b] != nil {
+		var ctx *spliceSite
+		if ii.site != nil && ii.site != offGraph {
+			ctx = ii.site
+		}
+		if ii.site != offGraph && p.guardDetour(b, ctx) != nil {
 			continue // decided by the helper's own branches, which are in ifs
 		}
 		c0, c1 := canSucceed(enter(b, 0, ii.site, nil)), canSucceed(enter(b, 1, ii.site, nil))
